@@ -176,4 +176,40 @@ example : Chokan.Server.candIndex 3 "2" = some 2 ∧ Chokan.Server.candIndex 3 "
     Chokan.Server.candIndex 3 "00" = none ∧ Chokan.Server.candIndex 3 "3" = none ∧ Chokan.Server.candIndex 3 "" = none := by
   decide
 
+
+/-! ## a path's score rises by count × occurrences -/
+
+/-- the learned counts of the written forms of the word nodes of a list (one term per occurrence) -/
+def learnedSum (f : Freq) (ctx : Ctx) : List Node → Nat
+  | [] => 0
+  | .word _ _ w _ :: t => freqOf f ctx w.word + learnedSum f ctx t
+  | _ :: t => learnedSum f ctx t
+
+theorem nodeScore_learned (t : Tables) (ctx : Ctx) (f : Freq) (n : Node) :
+    nodeScore t ctx f n = (nodeScore t ctx [] n).map (· + learnedSum f ctx [n]) := by
+  cases n with
+  | word e i w fw => rw [C06_node_score]; simp [learnedSum]
+  | bos => simp [nodeScore, learnedSum]
+  | eos => simp [nodeScore, learnedSum]
+  | virt e i s fw => simp [nodeScore, learnedSum]
+
+theorem learnedSum_cons (f : Freq) (ctx : Ctx) (n : Node) (t : List Node) :
+    learnedSum f ctx (n :: t) = learnedSum f ctx [n] + learnedSum f ctx t := by
+  cases n <;> simp [learnedSum]
+
+/-- **Every path's score rises by count × occurrences of the learned words**: with learned data the score of a path is
+its score without learned data plus, for every word node after the first node — whatever its part of speech —, the
+count learned for that node's written form in this context; a path that is not connectable stays so. -/
+theorem C06_path_score (t : Tables) (ctx : Ctx) (f : Freq) : ∀ (p : List Node),
+    pathScore t ctx f p = (pathScore t ctx [] p).map (· + learnedSum f ctx p.tail)
+  | [] => by simp [pathScore, learnedSum]
+  | [_] => by simp [pathScore, learnedSum]
+  | a :: b :: rest => by
+    have ih := C06_path_score t ctx f (b :: rest)
+    simp only [pathScore, List.tail_cons]
+    rw [ih, nodeScore_learned t ctx f b, learnedSum_cons f ctx b rest]
+    simp only [List.tail_cons]
+    cases edgeScore t ctx a b <;> cases nodeScore t ctx [] b <;> cases pathScore t ctx [] (b :: rest) <;>
+      simp [Score.add] <;> omega
+
 end Chokan.Props.C06
